@@ -496,6 +496,9 @@ func SliceOfFunction(env *Zlisp, name string,
 
 	sliceRt := GoStructRegistry.GetOrCreateSliceType(rt)
 	//Q("in SliceOfFunction: returning sliceRt = '%#v'", sliceRt)
+	if sliceRt == nil {
+		return SexpNull, fmt.Errorf("cannot make a slice type of '%s'", rt.RegisteredName)
+	}
 	return sliceRt, nil
 }
 
